@@ -4,6 +4,7 @@ go 1.26.4
 
 require (
 	github.com/antlr4-go/antlr/v4 v4.13.1
+	github.com/jackc/pgx/v5 v5.10.0
 	github.com/specterops/dawgs v0.0.0
 )
 
@@ -15,11 +16,14 @@ require (
 	github.com/dgryski/go-metro v0.0.0-20250106013310-edb8663e5e33 // indirect
 	github.com/gammazero/deque v1.2.1 // indirect
 	github.com/jackc/pgio v1.0.0 // indirect
+	github.com/jackc/pgpassfile v1.0.0 // indirect
+	github.com/jackc/pgservicefile v0.0.0-20240606120523-5a60cdf6a761 // indirect
 	github.com/jackc/pgtype v1.14.4 // indirect
 	github.com/kamstrup/intmap v0.5.2 // indirect
 	github.com/mschoch/smat v0.2.0 // indirect
 	github.com/neo4j/neo4j-go-driver/v5 v5.28.4 // indirect
 	golang.org/x/exp v0.0.0-20260611194520-c48552f49976 // indirect
+	golang.org/x/text v0.40.0 // indirect
 )
 
 replace github.com/specterops/dawgs => /repo
